@@ -158,7 +158,7 @@ def _shard(arg):
 
 
 # --- fixed boundary list: always run, every tier -----------------------------------
-BOUNDARY = ["today midnight - tomorrow midnight", "mitternacht bis mitternacht morgen", "noon to noon tomorrow", "12-12", "12:30 - 12:15",
+BOUNDARY = ["29.02.", "am 29. Februar", "feb 29th", "29.2. 8:00", "today midnight - tomorrow midnight", "mitternacht bis mitternacht morgen", "noon to noon tomorrow", "12-12", "12:30 - 12:15",
             "5.10.2020 8 o'clock - 5.10.2020 8 o'clock", "heute 8 uhr bis heute 8 uhr", "evening 8-12", "", " ", "#", "#tag", "# ", "##", ",;()", "\x00", "very early very early morning",
             "sehr früh sehr früh morgens", "late late late evening", "early early early early morning",
             "31.04.2020", "31.04.", "30.2.", "29.02.2019", "12.02.2020 - 31.", "31.6.2020 8:00",
@@ -178,7 +178,8 @@ def _boundary(arg):
     import datetime as dt
     acc = core.Acc(pid)
     for text in part:
-        for ts in (dt.datetime(2020, 2, 29, 23, 59, 59, 999999), dt.datetime(2019, 1, 31, 8, 0)):
+        for ts in (dt.datetime(2020, 2, 29, 23, 59, 59, 999999), dt.datetime(2019, 1, 31, 8, 0), dt.datetime(2096, 3, 1, 0, 0),
+                   dt.datetime(2100, 2, 28, 12, 0), dt.datetime(1970, 1, 1, 0, 0), dt.datetime(2100, 12, 31, 23, 59, 59)):
             for latent in (True, False):
                 for depth in (0, 1, 10):
                     for sc in ("default", "dummy", ["random", 7]):
